@@ -210,7 +210,8 @@ TriIdx(m, tris) ==      \* index list (0-based) of the listed triangles, in orde
     [k \in 1..(3 * Len(tris)) |-> m.idx[3 * (tris[((k - 1) \div 3) + 1] - 1) + ((k - 1) % 3) + 1]]
 
 \* math.Round(x * 10^dec) on scaled integers; half away from zero. P10 = 10^dec.
-RoundDiv(x, d) == IF x >= 0 THEN (2 * x + d) \div (2 * d) ELSE 0 - ((2 * (0 - x) + d) \div (2 * d))
+\* d is even (Q); written so that |x| up to 2^30 stays inside TLC's 32-bit integers
+RoundDiv(x, d) == IF x >= 0 THEN (x + d \div 2) \div d ELSE 0 - (((0 - x) + d \div 2) \div d)
 Cell(v, p10) == [c \in DOMAIN v |-> RoundDiv(v[c] * p10, Q)]
 
 Weld(m, id, p10) ==
